@@ -1,0 +1,57 @@
+/* verification hook (guarded by DANMAR_CPPCHECK_VERIF): per-thread event log of mutex and
+ * shared-member accesses. With VERIF_EVLOG=<file> every instrumented point appends one line
+ *   <thread> <kind> <name> <object>
+ * kind: lock | unlock | rd | wr | fork | join. Without the variable nothing is logged. */
+#ifndef verifevH
+#define verifevH
+
+#ifdef DANMAR_CPPCHECK_VERIF
+#include <cstdio>
+#include <cstdlib>
+#include <functional>
+#include <mutex>
+#include <thread>
+
+namespace verifev {
+    inline void ev(const char* kind, const char* name, const void* obj)
+    {
+        static const char* const path = std::getenv("VERIF_EVLOG");
+        if (!path)
+            return;
+        static std::mutex m;
+        static std::FILE* const f = std::fopen(path, "a");
+        if (!f)
+            return;
+        std::lock_guard<std::mutex> lg(m);
+        std::fprintf(f, "%zu %s %s %p\n", std::hash<std::thread::id>()(std::this_thread::get_id()), kind, name, obj);
+        std::fflush(f);
+    }
+
+    /** declared right after the lock_guard it describes: constructed after the mutex is taken,
+     *  destroyed before it is released */
+    class Scope {
+    public:
+        template<class Guard>
+        Scope(const char* name, const void* obj, const Guard& /*the guard that must exist*/) : mName(name), mObj(obj) {
+            ev("lock", mName, mObj);
+        }
+        ~Scope() {
+            ev("unlock", mName, mObj);
+        }
+        Scope(const Scope&) = delete;
+        Scope& operator=(const Scope&) = delete;
+    private:
+        const char* mName;
+        const void* mObj;
+    };
+}
+#define VERIF_EV_CAT2(a, b) a ## b
+#define VERIF_EV_CAT(a, b) VERIF_EV_CAT2(a, b)
+#define VERIF_EV(kind, name) verifev::ev(kind, name, this)
+#define VERIF_EV_LOCKED(name, guard) const verifev::Scope VERIF_EV_CAT(verifEvScope, __LINE__)(name, this, guard)
+#else
+#define VERIF_EV(kind, name) ((void)0)
+#define VERIF_EV_LOCKED(name, guard) ((void)0)
+#endif
+
+#endif
